@@ -122,6 +122,9 @@ fn watchdog() {
 }
 
 fn main() {
+    // abasic's errors capture a backtrace (and print it in Display) when RUST_BACKTRACE is set:
+    // that would make error texts depend on the environment. Decide it here, before any capture.
+    std::env::set_var("RUST_BACKTRACE", "0");
     let args: Vec<String> = std::env::args().collect();
     let code = real_main(&args);
     std::process::exit(code);
